@@ -145,10 +145,18 @@ def _and(a, b):
 class _Blocks:
     """early exits -> if/else, negations folded, nested ifs merged. `tail` is 'loop' / 'func' when falling off the end of the block ends the iteration / the call."""
 
+    try_else = False   # (helpers being written out) `try: A except E: <exit>` + rest  ->  `try: A except E: <exit> else: rest`: every return in tail position
+
     def block(self, body, tail):
         out = []
         for i, st in enumerate(body):
             last = i == len(body) - 1
+            if self.try_else and isinstance(st, ast.Try) and not st.finalbody and not last and st.handlers and all(_terminator(h.body) in ("return", "raise") for h in st.handlers) \
+                    and any(isinstance(x, ast.Return) for h in st.handlers for x in ast.walk(h)):
+                st = copy.copy(st)
+                st.orelse = list(st.orelse) + list(body[i + 1:])
+                out.append(self.stmt(st, tail))
+                return out
             if isinstance(st, ast.If):
                 st = ast.copy_location(ast.If(test=st.test, body=list(st.body), orelse=list(st.orelse)), st)
                 rest = body[i + 1:]
@@ -435,7 +443,9 @@ class Canon:
         node = copy.deepcopy(h.node)
         body = _strip_doc(node.body)
         body = self._inline_block(h, body, depth + 1)
-        body = _Blocks().block(body, "func")
+        bl = _Blocks()
+        bl.try_else = True
+        body = bl.block(body, "func")
         self._k[h.name] = self._k.get(h.name, 0) + 1
         sfx = h.name.lstrip("_") + ("" if self._k[h.name] == 1 else "_%d" % self._k[h.name])
         ren = {n: "_%s__%s" % (n.lstrip("_"), sfx) for n in _bound_names(node) if n not in ("self", "cls")}
@@ -524,7 +534,9 @@ class Canon:
             a = holder[i] if i is not None else holder.value
             if isinstance(a, ast.Call) and self.helper(f, a) is not None and not isinstance(a, ast.Starred):
                 h = self.helper(f, a)
-                if not _returns_in_tail(_Blocks().block(_strip_doc(copy.deepcopy(h.node).body), "func")):
+                bl = _Blocks()
+                bl.try_else = True
+                if not _returns_in_tail(bl.block(_strip_doc(copy.deepcopy(h.node).body), "func")):
                     return None
                 self._k["arg " + h.name] = self._k.get("arg " + h.name, 0) + 1
                 k = self._k["arg " + h.name]
@@ -1326,6 +1338,13 @@ class _Small(ast.NodeTransformer):
     def _block(b):
         out = []
         for st in b:
+            if isinstance(st, ast.For) and isinstance(st.iter, ast.IfExp) and isinstance(st.iter.body, (ast.Tuple, ast.List)) and isinstance(st.iter.orelse, (ast.Tuple, ast.List)) \
+                    and _is_pure(st.iter.test, reads_ok=True) and not st.orelse:
+                # `for v in (T1 if c else T2): body`  ->  `if c: for v in T1: body else: for v in T2: body`
+                a_ = ast.copy_location(ast.For(target=st.target, iter=st.iter.body, body=st.body, orelse=[], lineno=st.lineno), st)
+                b_ = ast.copy_location(ast.For(target=copy.deepcopy(st.target), iter=st.iter.orelse, body=copy.deepcopy(st.body), orelse=[], lineno=st.lineno), st)
+                out.append(ast.copy_location(ast.If(test=st.iter.test, body=_Small._block([a_]), orelse=_Small._block([b_])), st))
+                continue
             if isinstance(st, ast.For):
                 u = _Small.unrolled(st)
                 if u is not None:
